@@ -11,11 +11,11 @@ trap 'cd "$wt" && git checkout -q -- .' EXIT
 for p in "$@"; do
   cap=$(python3 -c "
 import json,glob
-d=json.load(open('/verif/engine/props.json'))
-for f in sorted(glob.glob('/verif/engine/props.d/*.json')): d.update(json.load(open(f)))
+d=json.load(open('${VERIF_ROOT:-/verif}/engine/props.json'))
+for f in sorted(glob.glob('${VERIF_ROOT:-/verif}/engine/props.d/*.json')): d.update(json.load(open(f)))
 print(int(d['$p'].get('quick_runs',5000)*$factor), d['$p'].get('quick_s',30))")
   set -- $cap "$@"; runs=$1; qs=$2; shift 2
-  out=$(VERIF_REPO=$wt /verif/check "$p" --runs $runs --budget $((qs*6)) --workers $workers 2>&1); rc=$?
+  out=$(VERIF_REPO=$wt ${VERIF_ROOT:-/verif}/check "$p" --runs $runs --budget $((qs*6)) --workers $workers 2>&1); rc=$?
   echo "== $p exit=$rc runs<=$runs"
   echo "$out" | grep -v "^KNOWN" | grep -E "^VIOLATION|clause=|^check |TROUBLE" | cut -c1-300 | head -8
 done
